@@ -108,13 +108,13 @@ REPLAY_PLANS = {
                                sim("U3", 200, 12, "Fam_C17", "NextSim_Invalid")]}),
     "C18": dict(
         claims_actions=True,     # every subsystem shares its value with another one: any divergence here is a confusion candidate
-        cover={"quick": [cov("U2", "U2_ScriptsQ", "F_Measure", 220, init="U2_Same"), cov("U2", "U2_ScriptsReg", "F_Reg", 180, init="U2_Same")],
+        cover={"quick": [cov("U2", "U2_ScriptsQ", "F_Measure", 180, init="U2_Same"), cov("U2", "U2_ScriptsReg", "F_Reg", 180, init="U2_Same")],
                "thorough": [cov("U2", "U2_Scripts", "F_Measure", 2500, init="U2_Same"), cov("U2", "U2_ScriptsReg", "F_Reg", 2000, init="U2_Same"),
                             cov("U3", "U3_Scripts", "F_Measure", 1500, init="U3_Same")]},
         actions={"measure", "cecombine", "cereorder", "traceout", "opn", "opk", "op1", "povm", "kraus", "newcomposite", "resize", "envcombine", "expand", "contract"},
         exhaustive={"quick": [("U4", 3, "Fam_C18")], "thorough": [("U4", 4, "Fam_C18")]},
         ex_init={"U4": "U4_ExInit"},
-        simulate={"quick": [sim("U2", 64, 9, "Fam_C18", "NextSim_Measure", init="U2_Same"), sim("U3", 64, 9, "Fam_C18", "NextSim_Measure", init="U3_Same")],
+        simulate={"quick": [sim("U2", 40, 9, "Fam_C18", "NextSim_Measure", init="U2_Same"), sim("U3", 40, 9, "Fam_C18", "NextSim_Measure", init="U3_Same")],
                   "thorough": [sim("U2", 500, 11, "Fam_C18", "NextSim_Measure", init="U2_Same"), sim("U3", 500, 11, "Fam_C18", "NextSim_Measure", init="U3_Same")]}),
 }
 
@@ -140,23 +140,23 @@ TRACE_PLANS = {
         simulate={"quick": [sim("U1", 64, 10, "Fam_All", "NextSim_Op"), sim("U2", 32, 10, "Fam_All", "NextSim_Op")],
                   "thorough": [sim("U1", 500, 12, "Fam_All", "NextSim_Op"), sim("U2", 300, 12, "Fam_All", "NextSim_Op"),
                                sim("U3", 200, 12, "Fam_All", "NextSim_Op")]},
-        drivers={"quick": (24, 20), "thorough": (400, 40)}),
+        drivers={"quick": (16, 18), "thorough": (400, 40)}),
     "C13": dict(
         layout={"quick": (2, 1, 2, 3), "thorough": (2, 1, 3, 4)},
         layout_faults={"quick": ["no_refresh_on_merge"], "thorough": ["no_refresh_on_merge", "dup_on_merge", "refresh_before_remove"]},
-        cover={"quick": [cov("U2", "U2_ScriptsReg", "F_Reg", 700)], "thorough": [cov("U2", "U2_ScriptsReg", "F_Reg", 3000, depth=2)]},
+        cover={"quick": [cov("U2", "U2_ScriptsReg", "F_Reg", 520)], "thorough": [cov("U2", "U2_ScriptsReg", "F_Reg", 3000, depth=2)]},
         exhaustive={"quick": [("U4", 3, "Fam_All")], "thorough": [("U4", 4, "Fam_All")]},
-        simulate={"quick": [sim("U2", 48, 11, "Fam_All", "NextSim_Struct"), sim("U3", 48, 11, "Fam_All", "NextSim_Struct")],
+        simulate={"quick": [sim("U2", 32, 11, "Fam_All", "NextSim_Struct"), sim("U3", 32, 11, "Fam_All", "NextSim_Struct")],
                   "thorough": [sim("U2", 400, 13, "Fam_All", "NextSim_Struct"), sim("U3", 400, 13, "Fam_All", "NextSim_Struct"),
                                sim("U1", 200, 12, "Fam_All", "NextSim_Struct")]},
-        drivers={"quick": (24, 20), "thorough": (400, 40)}),
+        drivers={"quick": (16, 18), "thorough": (400, 40)}),
     "C20": dict(
         layout={"quick": (2, 1, 2, 3), "thorough": (2, 1, 3, 4)},
         layout_faults={"quick": ["no_refresh_on_merge"], "thorough": ["no_refresh_on_merge", "dup_on_merge", "refresh_before_remove"]},
-        cover={"quick": [cov("U2", "U2_ScriptsReg", "F_Reg", 700)], "thorough": [cov("U2", "U2_ScriptsReg", "F_Reg", 3000, depth=2)]},
+        cover={"quick": [cov("U2", "U2_ScriptsReg", "F_Reg", 520)], "thorough": [cov("U2", "U2_ScriptsReg", "F_Reg", 3000, depth=2)]},
         exhaustive={"quick": [("U4", 3, "Fam_All")], "thorough": [("U4", 4, "Fam_All")]},
-        simulate={"quick": [sim("U2", 48, 11, "Fam_All", "NextSim_Comp"), sim("U3", 48, 11, "Fam_All", "NextSim_Comp")],
+        simulate={"quick": [sim("U2", 32, 11, "Fam_All", "NextSim_Comp"), sim("U3", 32, 11, "Fam_All", "NextSim_Comp")],
                   "thorough": [sim("U2", 400, 13, "Fam_All", "NextSim_Comp"), sim("U3", 400, 13, "Fam_All", "NextSim_Comp"),
                                sim("U1", 200, 12, "Fam_All", "NextSim_Comp")]},
-        drivers={"quick": (24, 20), "thorough": (400, 40)}),
+        drivers={"quick": (16, 18), "thorough": (400, 40)}),
 }
